@@ -7,9 +7,12 @@ from gen.pools import fbits, I32, F32, rand_i32, rand_f32
 from gen import stepgen
 
 PROPERTY = "C09"
-PROPS_VO = "Props/C09"
+PROPS_VO = ["Props/C09", "Props/FloatFacts"]
 AXIOMS_OK = []
+AXIOMS_OK_BY_FILE = {"Props/FloatFacts": vcheck.FLOCQ_AXIOMS}
+THEOREM_FILTER = {"Props/FloatFacts": r"FF_(C09_|fle_)"}
 ASSUMPTIONS = [
+    "the total-preorder hypothesis of C09_sort_spec is a THEOREM for the Flocq binary32 instance (Props/FloatFacts.v: FF_fle_nan_last_total / _trans / _shape, FF_C09_sort_spec_flocq), depending on the 4 classical axioms of Coq's real numbers through Flocq",
     "vector lengths and stack depths stay below 2^31 (the `len() as i32` casts); the check cannot drive a Vec there (C15 covers the resource envelope)",
     "FLOATVECTOR.SORT*: C09_sort_spec assumes that `fle_nan_last` (IEEE comparison with NaN last) is a total preorder; this is a property of binary32 comparison, validated by the f32 stream of C04 and exercised here with NaN, both zeros and infinities",
     "FLOATVECTOR.SINE: libm's sin is an oracle (the model asks the implementation's own libm for each argument); `2.0 * PI` is the f32 constant 0x40c90fdb",
